@@ -160,6 +160,52 @@ def gen_ephemeral(rng):
     return gentypes.gen_type(rng, 2)
 
 
+def gen_twins(rng):
+    """Two type ASTs that differ only in the order of a union's members, inside a wrapper whose Python object is NOT cached by typing
+    (PEP 585 generics, tuple and struct literals): `==` on the objects says equal, the converters must differ (1 -> 1 vs 1 -> 1.0)."""
+    a, b = rng.choice(((Ty('int'), Ty('float')), (Ty('float'), Ty('complex')), (Ty('str'), Ty('path', cls='PurePosixPath')),
+                       (Ty('int'), Ty('fraction')), (Ty('bool'), Ty('int')), (Ty('str'), Ty('date'))))
+    extra = [Ty('none')] if rng.random() < 0.4 else []
+    u1, u2 = Ty('union', [a, b] + extra), Ty('union', [b, a] + extra)
+    w = rng.choice(('list', 'dict', 'tup', 'struct', 'tuplit', 'seq', 'nest'))
+    def wrap(u):
+        if w == 'list': return Ty('list', [u])
+        if w == 'dict': return Ty('dict', [Ty('str'), u], res='dict')
+        if w == 'tup': return Ty('tup', [u, Ty('str')])
+        if w == 'struct': return Ty('struct', [u, Ty('str')], keys=('alpha', 'count'))
+        if w == 'tuplit': return Ty('tup', [u, Ty('str')], literal=True)
+        if w == 'seq': return Ty('seq', [u])
+        return Ty('list', [Ty('tup', [Ty('int'), u])])
+    return [wrap(u1), wrap(u2)]
+
+
+def gen_shared_value_union(rng):
+    """A union whose members produce values of ONE Python type (two list types, two tuple types): serialising must still pick per value."""
+    a, b = rng.choice(((Ty('int'), Ty('float')), (Ty('int'), Ty('str')), (Ty('fraction'), Ty('int')), (Ty('date'), Ty('str'))))
+    c = rng.random()
+    if c < 0.4: return Ty('union', [Ty('list', [a]), Ty('list', [b])])
+    if c < 0.7: return Ty('union', [Ty('tup', [a, a]), Ty('tup', [b, b])])
+    return Ty('union', [Ty('dict', [Ty('str'), a], res='dict'), Ty('dict', [Ty('str'), b], res='dict')])
+
+
+def stamps_of(x, depth=0):
+    from . import c18
+    if isinstance(x, c18.Stamp):
+        return [x.source]
+    out = []
+    if depth < 6:
+        if isinstance(x, collections.abc.Mapping):
+            for k, v in x.items():
+                out += stamps_of(k, depth + 1) + stamps_of(v, depth + 1)
+        elif isinstance(x, (list, tuple, set, frozenset, collections.deque)):
+            for v in x:
+                out += stamps_of(v, depth + 1)
+        elif hasattr(x, '__pane_info__'):
+            for f in type(x).__pane_info__.fields:
+                out += stamps_of(getattr(x, f.name, None), depth + 1)
+    return out
+
+
 def stamp_handler(tag):
     from . import c18
     conv = c18.StampConv(tag)
@@ -186,10 +232,15 @@ def run(ctx):
         shared = {int: c18.StampConv('shared-v0')}      # one custom= mapping reused (and edited) across the history
         n_ops = rng.randint(10, 80)
         pool = [gen_ephemeral(rng) for _ in range(rng.randint(2, 6))]
+        if rng.random() < 0.6:
+            pool += gen_twins(rng)
+        if rng.random() < 0.4:
+            pool.append(gen_shared_value_union(rng))
+        typed = []          # (ty, T, typed value, custom) of earlier successes: serialised again later, against a freshly built converter
         prev_op = None
         ctx.count('histories')
         for step in range(n_ops):
-            op = rng.choice(('mk', 'mk', 'conv', 'conv', 'conv', 'conv_custom', 'conv_custom', 'edit_shared', 'drop', 'gc', 'noise', 'conv_fresh_obj'))
+            op = rng.choice(('mk', 'mk', 'conv', 'conv', 'conv', 'conv_custom', 'conv_custom', 'edit_shared', 'drop', 'gc', 'noise', 'conv_fresh_obj', 'ser', 'ser'))
             ctx.count('history_steps')
             ctx.case((prev_op, op), nontrivial=True)
             prev_op = op
@@ -199,6 +250,25 @@ def run(ctx):
                 if err is None:
                     slots[rng.randrange(6)] = (ty, T)
                     ctx.count('types_created')
+                continue
+            if op == 'ser':
+                if not typed:
+                    continue
+                ty, T, x, custom = rng.choice(typed)
+                got = observe(env.into_data, x, T, custom=custom)
+                mc = env.make_converter
+                saved, mc.cache = mc.cache, {}
+                try:
+                    want = observe(lambda: mc.inner_f(T, env.ConverterHandlers.make(custom)).into_data(x))
+                finally:
+                    mc.cache = saved
+                ctx.count('fresh_build_serialisations')
+                ok, why = same_outcome(want, got)
+                if not ok:
+                    ctx.violation('memoised-equals-freshly-built', 'history', i,
+                                  {'type': describe(ty), 'py_type': short(T, 200), 'typed_value': short(x, 200), 'custom': short(custom, 80), 'step': step,
+                                   'memoised_into_data': got.brief(), 'fresh_into_data': want.brief(), 'why': why}, mech='into_data-differs-from-fresh-build')
+                    return
                 continue
             if op == 'drop':
                 if slots:
@@ -234,8 +304,19 @@ def run(ctx):
             cls_, v = genval.case_values(ty, rng, small=True)
             custom = None
             if op == 'conv_custom':
-                custom = rng.choice((H_STABLE, H_TUPLE, {int: c18.StampConv('dict-form')}, [H_STABLE], shared, shared))
+                # dict literals get a tag of their own each time: a handler table remembered by the dict's id() would serve an older one
+                custom = rng.choice((H_STABLE, H_TUPLE, {int: c18.StampConv(f'dict-form-{i}-{step}')}, {int: c18.StampConv(f'dict-form-{i}-{step}')},
+                                     [H_STABLE], shared, shared))
             got = observe(env.from_data, v, T, custom=custom)
+            if isinstance(custom, dict) and got.kind == 'value':
+                allowed = {custom[int].source} if int in custom else set()
+                seen = set(stamps_of(got.val))
+                ctx.count('stamp_sources_checked')
+                if not seen <= allowed:
+                    ctx.violation('handlers-are-those-of-this-call', 'history', i,
+                                  {'type': describe(ty), 'value': short(v, 200), 'custom_given': short(custom, 120), 'stamps_in_result': sorted(seen), 'step': step},
+                                  mech='stamps-from-another-call')
+                    return
             want = fresh_outcome(T, v, custom)
             ctx.count('fresh_build_comparisons')
             ok, why = same_outcome(want, got)
@@ -249,6 +330,8 @@ def run(ctx):
                 ctx.violation('cache-hit-for-identical-type', 'history', i, {'built_for': prev[:200], 'handed_to': desc[:200], 'step': step}, mech='stale-hit')
                 del stale[:]
                 return
+            if got.kind == 'value' and len(typed) < 12:
+                typed.append((ty, T, got.val, custom))
 
     drive.for_each_case(ctx, 'history', ctx.budget, history, gen=lambda c, r: Ty('int'), seconds=120)
 
